@@ -2,7 +2,13 @@
 Correspondence: PointChargeIntegral.construct_array_contraction, point_charge_integral and
 nuclear_electron_attraction_integral of /repo vs the exact Coq model (commands 14-16); Boys values from mpmath
 (independent of scipy's hyp1f1). The nuclear-attraction matrix is also compared with the sum of the implementation's
-own per-charge arrays."""
+own per-charge arrays.
+Stream "hp": PointChargeIntegral.construct_array_contraction (the one-electron kernel _compute_one_elec_integrals: Boys
+seed, vertical and horizontal recursions, the norms computed inside, contraction, component selection, a/b swap, charge
+factor) replayed in 260-bit arithmetic on object arrays with the Boys function from mpmath (harness/hpnum.py) and
+compared with command 14 at 1e-18 x (largest sum|primitive terms| of the block).  The points and charges are handed
+over as the float arrays the method insists on (dtype check): they are dyadic rationals, and every operation that
+involves them has an HP operand, so nothing is rounded."""
 import random
 from fractions import Fraction
 
@@ -19,7 +25,8 @@ RULE = ("block level: every (l_a, l_b) in 0..5 x 0..5 (both L_a>=L_b and L_a<L_b
         "PointChargeIntegral.boys_func (array shapes of the integral code): orders 0..10 x arguments {0, 5e-324, 1e-300, "
         "..., 1e-32, 1e-31, 1e-30, 2e-30, 1e-29 .. 1e-24 (what coincident product centres give through rounding), every "
         "decade to 1e6, 0.5, 2, 5, 20..100} + 21 seeded 53-bit arguments log-uniform in 1e-33..1e6, against mpmath at "
-        "1e-11 relative; distinct by input hash")
+        "1e-11 relative; distinct by input hash; hp stream: 6 (quick) / 50 (thorough) shell pairs l<=2 / l<=3, K,M<=2, 1-2 charges, "
+        "replayed at 260 bits (Boys function by mpmath), tolerance 1e-18 x largest sum|primitive terms| of the block")
 RULE += " HISTORY stream (the returned value depends only on the arguments): basis-level shells carry the atom index (icenter; shells sharing a centre share it); every 2nd generated basis (quick; every 4th thorough; with a transform only bases of 1-2 shells; only where the exact model is cheap: pair-cost estimate x charges <= 40000 quick / 120000 thorough) and every 5th same-centre pair is a GEOMETRY SCAN evaluated in one process: the same shells (exponents, coefficients, types, icenter) with the atoms displaced rigidly by k/16 bohr (one atom, or every atom by its own vector) at 1-2 further geometries, then the first geometry again; every call is compared with the exact model at its own geometry with the same tolerance (detail kind \"history\", the replay case contains the geometries; shrinking and replay evaluate every candidate sequence in a fresh process)"
 ASSUMPTIONS = ["rounding of the NumPy pipeline and of scipy.special.hyp1f1 is not modelled: accuracy is decided on the "
                "generated inputs against the exact value (Boys function by mpmath at 260 bits)"]
@@ -38,6 +45,18 @@ def _impl_block(case, ga, gb):
     from gbasis.integrals.point_charge import PointChargeIntegral
     pc, pq = _np_pts(case)
     return PointChargeIntegral.construct_array_contraction(ga, gb, pc, pq)
+
+
+_HPCLS = []
+
+
+def _hp_block(case, ha, hb):
+    import hpnum
+    from gbasis.integrals.point_charge import PointChargeIntegral
+    if not _HPCLS:
+        _HPCLS.append(type("PointChargeHP", (PointChargeIntegral,), {"boys_func": staticmethod(hpnum.boys_hp)}))
+    pc, pq = _np_pts(case)
+    return _HPCLS[0].construct_array_contraction(ha, hb, pc, pq)
 
 
 def _impl_int(case, gbasis, T):
@@ -97,7 +116,8 @@ def _extra(case, impl, res, level):
 KERNEL = dict(
     name="pointcharge",
     block_cmd=lambda case, sa, sb: "(14 %s %s %s)" % (sx(_pts(case)), sa.sx(), sb.sx()),
-    int_cmd=_int_cmd, impl_block=_impl_block, impl_int=_impl_int, post=lambda a: a, tol=_tol, extra_check=_extra)
+    int_cmd=_int_cmd, impl_block=_impl_block, impl_int=_impl_int, post=lambda a: a, tol=_tol, extra_check=_extra,
+    hp_block=_hp_block, hp_floor=1.0)
 _eval_int = twoindex.make_eval(KERNEL)
 
 
@@ -139,6 +159,12 @@ def gen_cases(tier, seed):
     rng = random.Random(1000003 * seed + 31)
     cases = twoindex.gen_cases(tier, seed, salt=3, lmax_block=5, lmax_basis=3, nb_quick=24, nb_thorough=150,
                                block_reps_thorough=2, kcap_big=2)
+    hp = twoindex.hp_cases(tier, seed, salt=3, lmax_quick=2, lmax_thorough=3, n_quick=6, n_thorough=50)
+    for c in hp:
+        centres = [[Fraction(x) for x in c["a"]["coord"]], [Fraction(x) for x in c["b"]["coord"]]]
+        # the replay receives the points as float arrays: snap every coordinate to the double it will become (a centre
+        # with a 53-bit coordinate plus k/16 is not a double in general), so that model and replay see the same number
+        c["pts"] = [[str(Fraction(float(Fraction(x)))) for x in p] for p in place_points(rng, centres, rng.randint(1, 2))]
     for i, c in enumerate(cases):
         if c["kind"] == "block":
             big = c["a"]["l"] + c["b"]["l"] >= 7
@@ -158,7 +184,7 @@ def gen_cases(tier, seed):
                 c["hist"] = None
     # the Boys function itself: orders 0..10 (l_a + l_b <= 10), arguments 0, 5e-324 .. 1e6
     cases += lib.boys_cases(seed, 10, "pointcharge")
-    return cases
+    return hp + cases
 
 
 def run(rep, tier, seed, model, replay):
